@@ -149,6 +149,24 @@ func genC16(g *Gen) {
 		}
 		c16Extra = nil
 	}
+	// a per-index option pads the handling tree below the named index: an element at a lower index
+	// that is itself a list with an entry at the named index and the same name is outside the subtree
+	for pol := 1; pol <= 3; pol++ {
+		type M = map[string]interface{}
+		type L = []interface{}
+		ta := M{"a": L{L{M{"k": L{"o1"}}, M{"k": L{"o2"}}}, M{"k": L{"o3"}}}}
+		tb := M{"a": L{L{M{"k": L{"n1"}}, M{"k": L{"n2"}}}, M{"k": L{"n3"}}}}
+		if c, ok := c16Run(ta, tb, 0, []fieldSpec{{Path: "a.1.k", Pol: pol}}); ok {
+			c.Tags = append(c.Tags, "below-named-index")
+			g.Add(c)
+		}
+		ta2 := M{"a": L{L{nil, nil, M{"k": L{"o2"}}}, "x", M{"k": L{"o3"}}}}
+		tb2 := M{"a": L{L{nil, nil, M{"k": L{"n2"}}}, "y", M{"k": L{"n3"}}}}
+		if c, ok := c16Run(ta2, tb2, 0, []fieldSpec{{Path: "a.2.k", Pol: pol}}); ok {
+			c.Tags = append(c.Tags, "below-named-index")
+			g.Add(c)
+		}
+	}
 	// a 3-letter alphabet so that names repeat at different depths
 	tc := TreeCfg{Keys: []string{"a", "l", "x"}, MaxDepth: 4, MaxWidth: 3, PNil: 1, PEmpty: 1}
 	for i := 0; i < g.N; i++ {
